@@ -561,26 +561,23 @@ func runC05Strict(c *Ctx) {
 			k := FuncName(fn) + "|Loose()"
 			occ[k]++
 			construct := fmt.Sprintf("%s#%d", k, occ[k])
-			reason := ""
-			for ifi, outcome := range controllingConds(call.Block()) {
-				switch cnd := ifi.Cond.(type) {
-				case *ssa.Call:
-					if f := staticCallee(&cnd.Call); f != nil && outcome {
-						switch f.Name() {
-						case "ContainsExpression", "IsExpressionAssigned":
-							reason = f.Name() + "()"
-						}
+			reason := exprGuardAt(call.Block())
+			if reason == "" {
+				// the whole function is only entered for a section given by an expression: every call site is guarded
+				all, n := true, 0
+				for _, e := range p.callersOf(fn) {
+					if e.Site == nil {
+						continue
 					}
-				case *ssa.Extract:
-					if _, ok := cnd.Tuple.(*ssa.TypeAssert); ok && !outcome {
-						reason = "the type of an expression is not an object"
+					n++
+					if g := exprGuardAt(e.Site.Block()); g == "" {
+						all = false
+					} else {
+						reason = "every caller: " + g
 					}
-				default:
-					if v, nilSucc, ok := nilTest(ifi); ok {
-						if f, _ := fieldLoad(v); strings.HasSuffix(f, ".Expression") && (nilSucc == 0) != outcome {
-							reason = f + " != nil"
-						}
-					}
+				}
+				if !all || n == 0 {
+					reason = ""
 				}
 			}
 			if reason != "" {
@@ -802,4 +799,31 @@ func runC05Self(c *Ctx) {
 	if !found {
 		c.bad("(*RuleExpression).VisitWorkflowPre|input registered after its default was checked", fn.Pos(), "registration of workflow_call inputs not found")
 	}
+}
+
+// exprGuardAt: a condition controlling the block says that the defining section is (or contains) an expression.
+func exprGuardAt(b *ssa.BasicBlock) string {
+	reason := ""
+	for ifi, outcome := range controllingConds(b) {
+		switch cnd := ifi.Cond.(type) {
+		case *ssa.Call:
+			if f := staticCallee(&cnd.Call); f != nil && outcome {
+				switch f.Name() {
+				case "ContainsExpression", "IsExpressionAssigned":
+					reason = f.Name() + "()"
+				}
+			}
+		case *ssa.Extract:
+			if _, ok := cnd.Tuple.(*ssa.TypeAssert); ok && !outcome {
+				reason = "the type of an expression is not an object"
+			}
+		default:
+			if v, nilSucc, ok := nilTest(ifi); ok {
+				if f, _ := fieldLoad(v); strings.HasSuffix(f, ".Expression") && (nilSucc == 0) != outcome {
+					reason = f + " != nil"
+				}
+			}
+		}
+	}
+	return reason
 }
